@@ -17,6 +17,8 @@ package main
 //           jobs made / notified by the real provider code, remove_after: see realjob.go
 //  which=6,7 compressed (lz4) jobs: see realjob.go
 //  which=8   the real Pipeline.In behind the worker, observed at the output plugin: see e2e.go
+//  which=9,10 the same with the real file Plugin (PassEvent, Commit) as the pipeline's input and a job resumed from the saved
+//           offsets of several streams, plain / lz4: see streams.go
 //  a which-0/1 case may carry a 6th item `base`: the file starts with a hole of base bytes (sparse), all offsets shift
 
 import (
@@ -171,6 +173,12 @@ func c06Exec(which int, cs hx.Sx) hx.Sx {
 	if which == 8 {
 		return c06ExecE2E(cs)
 	}
+	if which == 9 {
+		return c06ExecStreams(cs)
+	}
+	if which == 10 {
+		return c06ExecStreamsLz4(cs)
+	}
 	if which == 2 {
 		max := int(hx.Int(it[0]))
 		cut := hx.Truth(it[1])
@@ -309,6 +317,10 @@ type c06Cfg struct {
 func c06Gen(c *hmain.Ctx) {
 	defer os.RemoveAll(c06TempDir())
 	r := c.R
+	if os.Getenv("C06_ONLY") == "streams" { // development aid: the streams of streams.go alone
+		c06GenStreams(c, []int{1, 2, 3, 4, 5, 6, 7, 8, 9, 16, 31, 64, 257, 1024, 8192})
+		return
+	}
 
 	// 1. exhaustive small scope: every content over {a,b,\n} up to maxLen x every split into two
 	//    appends (a pass after each) x bufsz 1..4 x (max,cut) in {0, 2 skip, 2 cut, 3 skip, 3 cut}.
@@ -661,6 +673,10 @@ func c06Gen(c *hmain.Ctx) {
 
 	// 11. end to end: the real Pipeline.In of a started pipeline behind the worker (which = 8), see e2e.go
 	c06GenE2E(c, cfgs, bufs, randContent)
+
+	// 12. end to end with streams: a job resumed from the saved offsets of 2..3 streams, the real Plugin.PassEvent / Commit
+	//     behind the real Pipeline.In (which = 9 | 10), see streams.go
+	c06GenStreams(c, bufs)
 }
 
 func bitLen(x int64) int {
